@@ -264,3 +264,23 @@ def replay(ctx, path):
     same = content_of(r) == content_of(rx)
     print("replay: %s" % ("property holds" if same else "encoding and normal form still read differently"))
     return 0 if same else 1
+
+
+def corpus(ctx, entry):
+    rp = entry["replay"]
+    nptdms = ctx.nptdms()
+    vio = []
+    r, _ = canon.real_read(bytes.fromhex(rp["file"]), nptdms)
+    if rp.get("kind") == "forbidden":
+        if r.get("ok"):
+            vio.append(Violation("corpus: forbidden encoding read as data", rp))
+    elif rp.get("explicit"):
+        rx, _ = canon.real_read(bytes.fromhex(rp["explicit"]), nptdms)
+        if content_of(r) != content_of(rx):
+            vio.append(Violation("corpus: encoding and its explicit normal form read differently", rp))
+    dis = []
+    if ctx.build_ok:
+        d = compare_state(ctx.get_model().ask("read " + hx(bytes.fromhex(rp["file"]))), r)
+        if d:
+            dis.append(dict(what="corpus: reader model vs real: %s" % d[0], file=rp["file"]))
+    return dis, vio
